@@ -391,6 +391,17 @@ def w_model(ctx, rng, i):
             model.instance_vector(w); model.reconstruct_vector(x); model.project_out_vector(x)
     # weights in the other documented spellings (a list, a tuple, only the leading few): the same instance
     wa = rng.normal(size=model.n_active_components)
+    # ... and weights that switch single modes on (exact zeros in front of / between the non-zero ones)
+    for _ in range(2):
+        wz = rng.normal(size=model.n_active_components) * (rng.random(model.n_active_components) < 0.4)
+        if len(wz) > 1:
+            wz[0] = 0.0
+            wz[-1] = wz[-1] or 1.5
+        if backing == "vector":
+            model.instance(wz.copy()); model.instance(np.round(wz * 2).astype(int))
+        else:
+            model.instance_vector(wz.copy()); model.instance(wz.copy())
+        PCAVectorModel.instance_vectors(model, np.vstack([wz, rng.normal(size=len(wz))]) * np.r_[0.0, np.ones(len(wz) - 1)])
     for wl in (list(wa), tuple(float(v) for v in wa), [float(v) for v in wa[: max(1, len(wa) // 2)]]):
         ctx.tap("weights_as_python_sequences", "calls"); ctx.tap("weights_as_python_sequences", "checked")
         ref_i = np.asarray(PCAVectorModel.instance(model, np.asarray(wl, dtype=float)), dtype=float)
@@ -600,6 +611,29 @@ def w_alt_constructors(ctx, rng, i):
         x = rng.normal(size=d) * 3
         PCAVectorModel.instance(model, w); PCAVectorModel.reconstruct(model, x); PCAVectorModel.project_out(model, x)
         model.variance_ratio(); model.noise_variance()
+    if rng.random() < 0.4:
+        # the documented uncentred form, from the scatter matrix of no more samples than features (its rank is the number of samples):
+        # the same model as the ordinary constructor builds from those samples without centring
+        d2 = int(rng.integers(3, 10))
+        n2 = int(rng.integers(2, d2 + 1))
+        X2 = rng.normal(size=(n2, d2)) * rng.uniform(0.7, 1.5, d2)
+        S2 = X2.T @ X2 / (n2 - 1)
+        ctx.tap("uncentred_covariance_constructor", "calls"); ctx.tap("uncentred_covariance_constructor", "checked")
+        try:
+            m2_ = PCAVectorModel.init_from_covariance_matrix(S2, np.zeros(d2), n_samples=n2, centred=False)
+            b2_ = PCAVectorModel(X2.copy(), centre=False)
+            lam2 = np.linalg.svd(X2, compute_uv=False) ** 2 / (n2 - 1)
+            lam2 = lam2[lam2 > 1e-5 * lam2[0]]
+            if m2_.n_components != len(lam2) or m2_.n_components != b2_.n_components:
+                ctx.fail("number_of_components_differs_from_rank", cls="PCAVectorModel", mech="alt_ctor_uncentred_covariance", got=int(m2_.n_components), expected=int(len(lam2)))
+            elif _amax(m2_._eigenvalues - lam2) > 1e-7 * lam2[0]:
+                ctx.fail("eigenvalues_are_not_the_sample_variances_along_the_components", cls="PCAVectorModel", mech="alt_ctor_uncentred_covariance")
+            else:
+                rec_ = np.asarray(PCAVectorModel.reconstruct(m2_, X2[0].copy()), dtype=float)
+                if _amax(rec_ - X2[0]) > 1e-7 * max(1.0, float(np.abs(X2).max())):
+                    ctx.fail("training_sample_not_reconstructed_exactly", cls="PCAVectorModel", mech="alt_ctor_uncentred_covariance", err=_amax(rec_ - X2[0]))
+        except Exception as e_:
+            ctx.fail("unexpected_exception", cls="PCAVectorModel", mech="alt_ctor_uncentred_covariance:" + type(e_).__name__, error=repr(e_)[:160])
     ctx.count_case(("alt_ctor", kind, obj), nontrivial=True, sample={"constructor": ["covariance", "precision", "components", "covariance+max_n"][kind], "object_backed": obj} if i < 4 else None)
 
 
